@@ -51,7 +51,11 @@ func VerifC09_StaleWrite() {
 	if vsymBool() {
 		msg = NewSeparateReq(1, sym4())
 	}
-	queued := vsymChoose(3)
+	maxQueued := 3 // 0..3 queued frames (thorough: 0..4, the capacity the harness gives sendCh: a 5th offer with no reader blocks the harness itself)
+	if vsymTier() == 1 {
+		maxQueued = 4
+	}
+	queued := vsymChoose(maxQueued + 1)
 	for i := 0; i < queued; i++ {
 		e1.sendCh <- &sendRequest{msg: msg}
 	}
